@@ -265,6 +265,11 @@ func (env *Env) elabBinary(e *SBinary) Val {
 	case "<==>":
 		return b(app("=", x.T, y.T))
 	case "==", "!=":
+		if isNilLit(e.Y) && (x.S.K == KSlice || x.S.K == KMap) {
+			y = Val{T: zeroOf(x.S), S: x.S}
+		} else if isNilLit(e.X) && (y.S.K == KSlice || y.S.K == KMap) {
+			x = Val{T: zeroOf(y.S), S: y.S}
+		}
 		if !sameSort(x.S, y.S) {
 			elabFail("== on different sorts %s vs %s in %s", x.S, y.S, exprString(e))
 		}
@@ -693,6 +698,24 @@ func (ex *Exec) specFuncApp(env *Env, sf *SpecFunc, args []Val) Val {
 // pureApp applies a Go function/method with a `pure` contract as an uninterpreted function.
 func (ex *Exec) pureApp(env *Env, fn *types.Func, recv *Val, args []Val, what string) Val {
 	key := funcKey(fn)
+	if sig := fn.Type().(*types.Signature); sig.Variadic() {
+		n := sig.Params().Len()
+		last := sig.Params().At(n - 1).Type()
+		ls := ex.sortOf(last)
+		if !(len(args) == n && sameSort(args[n-1].S, ls)) && len(args) >= n-1 {
+			arr := fmt.Sprintf("((as const (Array Int %s)) %s)", ls.Elem.Name, zeroOf(ls.Elem))
+			for j := n - 1; j < len(args); j++ {
+				arr = app("store", arr, intLit(int64(j-(n-1))), args[j].T)
+			}
+			cnt := len(args) - (n - 1)
+			isNil := "false"
+			if cnt == 0 {
+				isNil = "true"
+			}
+			packed := Val{T: mkSlice(ls, arr, intLit(int64(cnt)), isNil), S: ls, GoT: last}
+			args = append(append([]Val(nil), args[:n-1]...), packed)
+		}
+	}
 	fc := ex.cs.Funcs[key]
 	if fc == nil || !fc.Pure {
 		elabFail("%s: %s has no pure contract and cannot be used in specs", what, key)
